@@ -40,9 +40,11 @@ CentreVertexOK(v, t, p) == \E k \in 1 .. Len(t) : t[k].s[4] = v[1] /\ t[k].val[p
 \* step mode: vertices at the side extrema of a cycle carrying that cycle's value
 SideVertexOK(v, t, p) == \E k \in 1 .. Len(t) : (t[k].s[2] = v[1] \/ t[k].s[6] = v[1]) /\ t[k].val[p] = v[2]
 InView(r, n, a, b) == Span(r) \subseteq Displayed(n, a, b)
-PanelOK(verts, interp, t, p, n, a, b) ==
-  /\ \A i \in 1 .. Len(verts) : IF interp THEN CentreVertexOK(verts[i], t, p) ELSE SideVertexOK(verts[i], t, p)
-  /\ \A k \in 1 .. Len(t) : InView(t[k], n, a, b) =>
+\* two statements: every vertex drawn is a genuine (position, value) of some cycle; every cycle entirely in view is drawn
+PanelDrawnOK(verts, interp, t, p) ==
+  \A i \in 1 .. Len(verts) : IF interp THEN CentreVertexOK(verts[i], t, p) ELSE SideVertexOK(verts[i], t, p)
+PanelCompleteOK(verts, interp, t, p, n, a, b) ==
+  \A k \in 1 .. Len(t) : InView(t[k], n, a, b) =>
         IF interp THEN \E i \in 1 .. Len(verts) : verts[i] = <<t[k].s[4], t[k].val[p]>>
         ELSE (\E i \in 1 .. Len(verts) : verts[i] = <<t[k].s[2], t[k].val[p]>>) /\ (\E i \in 1 .. Len(verts) : verts[i] = <<t[k].s[6], t[k].val[p]>>)
 
@@ -70,7 +72,8 @@ PlotClauses(c) ==
     \o (IF c.has_burst THEN Fail(HighlightOK(ToSet(c.H), c.t, c.n, c.a, c.b), "C20.burst_highlight")
                           \o Fail(Len(c.Hy) = Len(c.H) /\ \A k \in 1 .. Len(c.H) : c.H[k] \in 0 .. (Len(c.sig) - 1) /\ c.Hy[k] = c.sig[c.H[k] + 1], "C20.highlighted_trace_is_not_the_plotted_signal")
         ELSE <<>>)
-    \o FoldLeft(LAMBDA acc, p : acc \o Fail(PanelOK(c.panels[p].verts, c.interp, c.t, c.panels[p].col, c.n, c.a, c.b), "C20.parameter_panel_values")
+    \o FoldLeft(LAMBDA acc, p : acc \o Fail(PanelDrawnOK(c.panels[p].verts, c.interp, c.t, c.panels[p].col), "C20.parameter_panel_values")
+                                     \o Fail(PanelCompleteOK(c.panels[p].verts, c.interp, c.t, c.panels[p].col, c.n, c.a, c.b), "C20.parameter_panel_misses_a_cycle_in_view")
                                      \o Fail(c.panels[p].thr_line = c.panels[p].thr, "C20.threshold_line"),
                 <<>>, [p \in 1 .. Len(c.panels) |-> p])
 =============================================================================
